@@ -170,7 +170,8 @@ def gen_ops(rng, n):
         elif c < 0.65:
             ops.append(("remove", rng.choice(keys)))
         elif c < 0.8:
-            ops.append(("retime", rng.choice(keys), (rng.choice([0, 1, 4, 7, 2500]), "US")))
+            # re-timing in place bypasses Event.__init__: also with a coarser unit than the queued events use (seed C16-3)
+            ops.append(("retime", rng.choice(keys), (rng.choice([0, 1, 2, 3]), rng.choice(["MS", "S"])) if rng.random() < 0.35 else (rng.choice([0, 1, 4, 7, 2500]), "US")))
         else:
             ops.append(("pop",))
     return ops
